@@ -446,9 +446,15 @@ def check(ctx):
     # state and never writes into arrays it shares with the interface or the model (C08 R8.4)
     from . import c08
     c08.check_copies(sub)
+    for m_ in ('lineage', 'lineage.pxd'):
+        ctx.prog.mod(m_)
+    c08.check_pure_evaluation(sub)
     for rule, key, ok, where, what, detail in sub.got:
         if rule in ('R5.2-record-before-update', 'R5.2-record-condition', 'R9.3-rules-first', 'R8.4-work-on-copies'):
             ctx.ob('R7.4-first-row', '%s/%s' % (rule, key), ok, where, what, detail)
+        if rule == 'R8.7-pure-evaluation' and key == 'model-accessors':
+            # the column labels come from Model.get_species_list() at conversion time: they must describe the model as it is now
+            ctx.ob('R7.4-labels', 'R8.7-pure-evaluation/model-accessors', ok, where, what, detail)
     # "never fails from inside": what the simulators call on model objects must be implemented for every concrete class -
     # rule operations in plain and volume mode (C09 R9.2-operation-slot), re-emitted here
     sub = SubCtx(ctx)
